@@ -346,6 +346,7 @@ type Message struct {
 	PayloadB64 string            `json:"payload_b64"`
 	Headers    map[string]string `json:"headers"`
 	DeadReason string            `json:"dead_reason"`
+	NextRunAt  time.Time         `json:"next_run_at"`
 }
 
 // ListAll reads every message of every state through the Admin API.
